@@ -113,13 +113,18 @@ def cases(ctx):
     for r in range(ctx.n(40, 2000)):
         n = rng.choice([2, 3, 4])
         op = rng.choice([o for o in OPS if o != "FuzzyNot"])
-        dts = [rng.choice(["int64", "float32", "float64", "float64"]) for _ in range(n)]
-        if len(set(dts)) == 1:
-            dts[0] = "int64" if dts[0] != "int64" else "float32"
+        dts = [rng.choice(["int64", "float32", "float64", "float64", "int8", "int32"]) for _ in range(n)]
+        if len(set(dts)) == 1 and dts[0] == "float64":
+            dts[0] = rng.choice(["int64", "float32", "int8"])
+        if r % 5 == 0:
+            dts = [rng.choice(["int64", "int8", "int16"])] * n          # crisp layers only, all of one integer type
         order = list(range(n))
         rng.shuffle(order)
         ps = param_sets(rng, op, n, ctx.quick)
-        yield {"kind": "sampled", "n": n, "op": op, "params": rng.choice(ps), "shape": [400], "order": order, "count": 400, "rseed": rng.randrange(10 ** 9), "dtypes": dts}
+        prm = rng.choice(ps)
+        if op == "FuzzyWeightedUnion" and any(d in ("int8", "int16") for d in dts) and rng.random() < 0.6:
+            prm = {"Weights": [float(rng.choice([60, 40, 30, 100, 7])) for _ in range(n)]}      # whole-valued decimals: decimals all the same
+        yield {"kind": "sampled", "n": n, "op": op, "params": prm, "shape": [400], "order": order, "count": 400, "rseed": rng.randrange(10 ** 9), "dtypes": dts}
     # a field that is fully true (or fully false) everywhere, listed before fields with missing cells
     for r in range(ctx.n(24, 1000)):
         n = rng.choice([2, 3, 4])
